@@ -213,6 +213,12 @@ func streamDispatch(c *ctx) {
 				k[iana.KeyParameterKid] = []byte("rotated-key")
 				peer[iana.KeyParameterKid] = []byte("rotated-key")
 			}
+			// the optional alg member naming each of the ten key-agreement algorithms in turn (-25 .. -34), on both keys
+			if rep%3 != 0 {
+				av := -25 - (rep*4+crv)%10
+				k[iana.KeyParameterAlg] = av
+				peer[iana.KeyParameterAlg] = -25 - (rep*4+crv+3)%10
+			}
 			pub, errP := ecdh.ToPublicKey(k)
 			peerPub, errQ := ecdh.ToPublicKey(peer)
 			own, errE := ecdh.NewECDHer(k)
